@@ -80,7 +80,7 @@ ASSUMPTIONS = [
     "request outstanding (the library discards such frames before its next request); the one exception are the "
     "late-answer histories: there the frame is the node's own, genuine answer to the client's earlier request for "
     "ANOTHER object (it carries that object's index/sub-index or is a download/segment confirmation), the "
-    "disturbed transfer may fail with SdoCommunicationError, and a late answer for the very same object is not "
+    "disturbed transfer may fail with an SDO communication or abort error, and a late answer for the very same object is not "
     "used with a write in between (SDO has no sequence numbers: it cannot be told from a fresh one); the time-out "
     "of the slow request is certain (its answer is kept back), no wait depends on speed; NMT commands in the drawn "
     "noise address nodes that do not take part (an NMT command to a participating node is not unrelated)",
@@ -348,6 +348,7 @@ def late_answer(hub, net_c, remote, local, ent, e, op, v, nid, last, tag, D):
             return []
         return [fr]
 
+    SDO_ERRORS = (canopen.SdoCommunicationError, canopen.SdoAbortedError)   # 'a communication or abort error'
     # 1. the slow request: its answer is kept back, the client times out (nothing can arrive: no race)
     keep = remote.sdo.RESPONSE_TIMEOUT
     hub.filter = hold
@@ -357,7 +358,7 @@ def late_answer(hub, net_c, remote, local, ent, e, op, v, nid, last, tag, D):
             rv2.raw = v2
         else:
             rv2.raw
-    except canopen.SdoCommunicationError:
+    except SDO_ERRORS:
         pass
     finally:
         hub.filter = None
@@ -384,7 +385,7 @@ def late_answer(hub, net_c, remote, local, ent, e, op, v, nid, last, tag, D):
         if disturbed_write:
             try:
                 rv.raw = v
-            except canopen.SdoCommunicationError:
+            except SDO_ERRORS:
                 last.pop((index, sub), None)
             else:
                 stored = local.data_store.get(index, {}).get(sub)
@@ -398,7 +399,7 @@ def late_answer(hub, net_c, remote, local, ent, e, op, v, nid, last, tag, D):
             want = last[(index, sub)][2]
             try:
                 back = rv.raw
-            except canopen.SdoCommunicationError:
+            except SDO_ERRORS:
                 pass
             except Exception as ex:
                 # e.g. the codec choking on another object's bytes
